@@ -69,7 +69,7 @@ def _g1(ctx: Context) -> None:
         ("M2 carries Salt", pp.presence_edges(ctx, cfg, T, hap.TLV_SALT, is_r0)),
     ):
         ctx.must_pass("C03.G1", cfg, rets[0], name, edges, desc=f"part1 returns only after: {name}")
-    t = strip_sites(T.of(cfg, rets[0], rets[0].exprs[0]))
+    t = pp.get_as_item(strip_sites(T.of(cfg, rets[0], rets[0].exprs[0])))
     ck.check("C03.G1", t == ("tuple", (sub(r0, const(hap.TLV_SALT)), sub(r0, const(hap.TLV_PUBLIC_KEY)))), "part1 returns (M2 salt, M2 public key)", f"{ctx.fkey(f)}:return",
              f"part1 returns {show(t, 120)}", ctx.loc(f, rets[0]))
     # its consumers unpack in the same order
@@ -99,7 +99,7 @@ def _vocab(ctx: Context):
 
 def _n(t):
     """normalise constructor spellings (SrpClient(...), Decryptor(...)) to their __init__"""
-    t = _norm_ctor(t)
+    t = pp.get_as_item(_norm_ctor(t))
 
     def rec(x):
         if not isinstance(x, tuple):
@@ -164,7 +164,8 @@ def _g2(ctx: Context) -> None:
         else:
             acc = c02.big(c02.meth("digest", c02.S("A_b"), c02.meth("get_proof_bytes"), K_))
             wants = [("cmp", ("Eq",), (acc, ("param", g.pos_params[1]))), ("cmp", ("Eq",), (("param", g.pos_params[1]), acc))]
-        ck.check("C03.G2", len(got) == 1 and got[0] in wants, f"the accessory-proof gate is the exact comparison: {want_desc}", f"{ctx.fkey(g)}:proof-gate-exact",
+        fexp = c02.make_expander(ctx, T2)
+        ck.check("C03.G2", len(got) == 1 and fexp(c02._norm(got[0])) in [fexp(c02._norm(w)) for w in wants], f"the accessory-proof gate is the exact comparison: {want_desc}", f"{ctx.fkey(g)}:proof-gate-exact",
                  f"{g.name} accepts {[show(x, 200) for x in got]}: the M4 gate must accept exactly the correct proof (a suffix/prefix/length-tolerant comparison accepts proofs "
                  "from a peer that does not know the setup code)", g.loc())
     # M5 (which reveals the controller's long-term key) is sent only after the accessory proved knowledge of the code
@@ -365,9 +366,21 @@ def _x1(ctx: Context) -> None:
     for q in (DRIVERS[0], DRIVERS[2]):
         f = ctx.func(q)
         oku = False
-        for x in walk_own(f.node):
-            if isinstance(x, ast.Assign) and isinstance(x.targets[0], ast.Tuple) and len(x.targets[0].elts) == 2 and isinstance(x.value, ast.Attribute) and x.value.attr == "value":
-                oku = True
+        ucfg = ctx.cfg(q)
+
+        def _is_stop_value(t) -> bool:
+            if t[0] == "phi":
+                return all(_is_stop_value(a) for a in t[1])
+            if t[0] == "await":
+                return _is_stop_value(t[1])
+            return t[0] == "attr" and t[2] == "value" and t[1][0] == "caught" and any(str(c).endswith("StopIteration") for c in t[1][1])
+
+        for nd in ucfg.nodes:
+            x = nd.ast
+            if nd.kind == "stmt" and type(x) is ast.Assign and isinstance(x.targets[0], ast.Tuple) and len(x.targets[0].elts) == 2:
+                # by value: the unpacked object is the caught StopIteration's value, through any temporaries / helper
+                if _is_stop_value(strip_sites(T.of(ucfg, nd, x.value))):
+                    oku = True
         ck.check("C03.X1", oku, f"{q.split('.', 1)[1]}: unpacks (salt, key) from the StopIteration value", f"{ctx.fkey(f)}:unpack", f"{q}: result of part 1 is not unpacked from StopIteration.value", f.loc())
 
 
